@@ -61,6 +61,7 @@ CONSTANTS KindsM,  \* binding kinds enumerated at module level   (always contain
           Fams,    \* subset of {"scope", "rel"}
           Relax,   \* relaxations generated          (subset of AllRelax)
           Guard,   \* relaxations under which the property invariants are asserted
+          StubModes, \* how the site module of the rel family may be stored: subset of {"none", "only", "inline"}
           RootKinds, \* roots of attribute accesses that are not names: subset of {"call", "subscript", "str"}
           Emit     \* print one CASE line per finished case
 
@@ -76,8 +77,6 @@ MPath == [P |-> <<"pkg">>, PA |-> <<"pkg", "a">>, PS |-> <<"pkg", "sub">>, PSB |
 MParent == [P |-> Nil, PA |-> "P", PS |-> "P", PSB |-> "PS", PSD |-> "PS", Q |-> Nil]
 IsInit == [P |-> TRUE, PA |-> FALSE, PS |-> TRUE, PSB |-> FALSE, PSD |-> TRUE, Q |-> FALSE]       \* Module.is_init_module
 Submods == [P |-> {"a", "sub"}, PA |-> {}, PS |-> {"b", "deep"}, PSB |-> {}, PSD |-> {}, Q |-> {}]
-IsPackage(m) == MParent[m] = Nil /\ IsInit[m]                                          \* Module.is_package
-IsSubpackage(m) == MParent[m] # Nil /\ IsInit[m]                                       \* Module.is_subpackage
 Anc1(m) == MParent[m]
 Anc2(m) == IF MParent[m] = Nil THEN Nil ELSE MParent[MParent[m]]
 AncSub(m) == (IF Anc1(m) = Nil THEN {} ELSE Submods[Anc1(m)]) \cup (IF Anc2(m) = Nil THEN {} ELSE Submods[Anc2(m)])
@@ -101,10 +100,19 @@ Scopes == {"mod", "A", "B", "A.init", "A.m", "B.init", "B.m"}
 InitScopes == {"A.init", "B.init"}
 MScopes == {"A.m", "B.m"}
 
-VARIABLES fam, M, n, up1, up2, modb, ab, bb, fnb, inh, st, S, \* the case
+VARIABLES fam, M, n, up1, up2, modb, ab, bb, fnb, inh, stub, st, S, \* the case
           pc, cur, mem, impl, binder, py, pyl, just            \* the run
-casevars == <<fam, M, n, up1, up2, modb, ab, bb, fnb, inh, st, S>>
+casevars == <<fam, M, n, up1, up2, modb, ab, bb, fnb, inh, stub, st, S>>
 vars == <<casevars, pc, cur, mem, impl, binder, py, pyl, just>>
+
+\* The file of a module.  IsInit[m] says the module is the init module of a package directory; `stub` says how the SITE module
+\* is stored: "none" = `x.py`; "only" = `x.pyi` alone (stubs-only package); "inline" = `x.py` and `x.pyi` side by side (the loader
+\* visits both and merges the stub into the concrete module: annotations then come from the stub's objects).
+FileStem(m) == IF IsInit[m] THEN "__init__" ELSE Last(MPath[m])
+FileSuffixes(m) == IF m = M /\ stub = "only" THEN {".pyi"} ELSE IF m = M /\ stub = "inline" THEN {".py", ".pyi"} ELSE {".py"}
+IsInitModule(m) == FileStem(m) = "__init__"      \* Module.is_init_module: filepath.name.split(".", 1)[0] == "__init__" - any suffix
+IsPackage(m) == MParent[m] = Nil /\ IsInitModule(m)                                    \* Module.is_package
+IsSubpackage(m) == MParent[m] # Nil /\ IsInitModule(m)                                 \* Module.is_subpackage
 
 NoStmt == [stmt |-> Nil, level |-> 0, mod |-> <<>>, name |-> Nil, asname |-> Nil]
 From(l, mp, nm, as) == [stmt |-> "from", level |-> l, mod |-> mp, name |-> nm, asname |-> as]
@@ -178,7 +186,7 @@ GVisit(s, o) ==
     LET ap == IF s.asname # Nil THEN s.mod ELSE <<s.mod[1]>>
         an == IF s.asname # Nil THEN s.asname ELSE ap[1]
     IN  [name |-> an, target |-> ap, created |-> TRUE]
-  ELSE IF s.mod = <<>> /\ s.level = 1 /\ s.asname = Nil /\ IsModuleObj(o) /\ IsInit[M] THEN      \* ... and self.current.is_module
+  ELSE IF s.mod = <<>> /\ s.level = 1 /\ s.asname = Nil /\ IsModuleObj(o) /\ IsInitModule(M) THEN      \* ... and self.current.is_module
     [name |-> s.name, target |-> <<>>, created |-> FALSE]                  \* "Special case": continue
   ELSE
     LET ap == RelToAbs(s, M)
@@ -282,7 +290,7 @@ InDom(R) ==
 
 ScopeInit ==
   /\ "scope" \in Fams /\ fam = "scope"
-  /\ M \in ScopeMods /\ n \in Names /\ st = NoStmt
+  /\ M \in ScopeMods /\ n \in Names /\ st = NoStmt /\ stub = "none"
   /\ modb \in (IF n = "A" THEN {"skel"} ELSE LevelKinds("M"))
   /\ ab \in (IF n = "B" THEN {"skel"} ELSE LevelKinds("A"))
   /\ bb \in LevelKinds("B")
@@ -304,6 +312,8 @@ RelInit ==        \* the same statement at module level, in class A and in A.__i
   /\ n = (IF st.asname # Nil THEN st.asname ELSE st.name)
   /\ modb = (IF n = "K" THEN None ELSE "st")       \* the module already defines its own class K
   /\ ab = "st" /\ bb = None /\ fnb = "limp" /\ up1 = None /\ up2 = None /\ inh = None
+  \* stub files: the relative imports `from .x import y as r` / `from ..x import y as r` of the init modules
+  /\ stub \in (IF IsInit[M] /\ st.level \in 1..2 /\ st.asname = "r" THEN StubModes ELSE {"none"})
   /\ S \in (IF n = "K" THEN {"A", "A.init"} ELSE {"mod", "A", "A.init"})
 
 Init ==
@@ -431,7 +441,7 @@ WalkWellFormed ==
 EmitCase ==
   (Emit /\ Done) =>
     PrintT(<<"CASE", ToJson([fam |-> fam, M |-> M, n |-> n, up1 |-> up1, up2 |-> up2, modb |-> modb, ab |-> ab, bb |-> bb,
-                             fnb |-> fnb, inh |-> inh, zmod |-> ZMod, st |-> st, S |-> S, impl |-> impl, binder |-> binder,
+                             fnb |-> fnb, inh |-> inh, zmod |-> ZMod, stub |-> stub, files |-> FileSuffixes(M), st |-> st, S |-> S, impl |-> impl, binder |-> binder,
                              py |-> py, pyl |-> pyl, mvl |-> VerdictLate, just |-> just, suffix |-> Suffix,
                              va |-> [rk \in RootKinds |-> [impl |-> ImplValueAttr(rk), ref |-> RefValueAttr(rk)]], mv |-> Verdict, mve |-> VerdictEloc,
                              clean |-> InDom({}), exempt |-> Exempt, why |-> (IF Exempt THEN PyStmt(st).why ELSE ""),
